@@ -743,7 +743,8 @@ fn stress_mode(args: &[String]) {
         }
         let seq = Arc::new(AtomicU64::new(seg.seq));
         let barrier = Arc::new(Barrier::new(k));
-        let mut handles = Vec::new();
+        let mut logs: Vec<Arc<Mutex<Vec<(u64, Value)>>>> = Vec::new();
+        let (dtx, drx) = std::sync::mpsc::channel::<usize>();
         for (i, plan) in plans.into_iter().enumerate() {
             let t = i + 1;
             let (fs2, seq2, b2) = (fs.clone(), seq.clone(), barrier.clone());
@@ -752,28 +753,52 @@ fn stress_mode(args: &[String]) {
                 c.dir_handle = open_dir(&fs, cc);
             }
             let mut r = Rng::new(rng.next());
-            handles.push(std::thread::Builder::new().stack_size(256 * 1024).spawn(move || {
+            let log = Arc::new(Mutex::new(Vec::new()));
+            logs.push(log.clone());
+            let dtx2 = dtx.clone();
+            std::thread::Builder::new().stack_size(256 * 1024).spawn(move || {
                 if perturb {
                     PERTURB.with(|p| *p.borrow_mut() = Some(Rng::new(r.next())));
                 }
-                let mut evs: Vec<(u64, Value)> = Vec::new();
                 b2.wait();
                 for op in &plan {
                     delay(&mut r);
                     let s1 = seq2.fetch_add(1, Ordering::SeqCst) + 1;
-                    evs.push((s1, op.call_event(t, s1)));
+                    log.lock().unwrap().push((s1, op.call_event(t, s1)));
                     let val = run_op(&fs2, op, c);
                     let s2 = seq2.fetch_add(1, Ordering::SeqCst) + 1;
-                    evs.push((s2, ret_event(t, &op.op, &val, s2)));
+                    log.lock().unwrap().push((s2, ret_event(t, &op.op, &val, s2)));
                 }
-                evs
-            }).expect("spawn"));
+                let _ = dtx2.send(t);
+            }).expect("spawn");
+        }
+        // wait for the clients; a client that never returns (livelock / deadlock in the code under
+        // test) is data: the history is written with the call left open and the process ends
+        let mut finished = 0;
+        let deadline = Instant::now() + HANG;
+        while finished < k {
+            let now = Instant::now();
+            if now >= deadline || drx.recv_timeout(deadline - now).is_err() {
+                break;
+            }
+            finished += 1;
         }
         let mut all: Vec<(u64, Value)> = Vec::new();
-        for h in handles {
-            all.extend(h.join().expect("stress thread"));
+        for l in &logs {
+            all.extend(l.lock().unwrap().iter().cloned());
         }
         all.sort_by_key(|x| x.0);
+        if finished < k {
+            trace.emit(&json!({"e": "Reset", "seg": it, "cfg": "stress", "r0": r0, "sid": it, "seed": seed}));
+            for e in seg.events.iter().chain(all.iter().map(|x| &x.1)) {
+                trace.emit(e);
+            }
+            trace.emit(&json!({"e": "Hang", "sid": it, "finished": finished, "threads": k}));
+            trace.flush();
+            println!("{}", json!({"iterations": it + 1, "ops": nops, "events": trace.n, "hangs": 1,
+                "wall_ms": t0.elapsed().as_millis() as u64}));
+            std::process::exit(3);
+        }
         for (_, e) in all {
             if e["e"] == "Ret" {
                 nops += 1;
@@ -784,7 +809,7 @@ fn stress_mode(args: &[String]) {
             seg.events.push(e);
         }
         probes(&fs, &mut seg);
-        trace.emit(&json!({"e": "Reset", "seg": it, "cfg": "stress", "r0": r0, "sid": it}));
+        trace.emit(&json!({"e": "Reset", "seg": it, "cfg": "stress", "r0": r0, "sid": it, "seed": seed}));
         for e in &seg.events {
             trace.emit(e);
         }
